@@ -39,12 +39,60 @@ def statham_frame(exc):
     return "?"
 
 
-def safe_parse(schema):
-    """parse_element on a deep copy. -> ('ok', element) | ('error', type, msg)."""
+PIPELINES = ["plain", "plain", "plain", "labelled"]
+LABELLED_SKIPS = [0]
+
+
+def safe_parse(schema, pipeline=None):
+    """parse_element on a deep copy. -> ('ok', element) | ('error', type, msg).
+
+    pipeline="labelled": through the documented loader instead (see safe_parse_labelled); documents the
+    loader cannot carry fall back to the plain call (counted in LABELLED_SKIPS)."""
+    if pipeline == "labelled":
+        out = safe_parse_labelled(schema)
+        if out[0] != "skip":
+            return out
+        LABELLED_SKIPS[0] += 1
     try:
         with warnings.catch_warnings():
             warnings.simplefilter("ignore")
             return ("ok", parse_element(copy.deepcopy(schema)))
+    except SchemaParseError as exc:
+        return ("parse-error", type(exc).__name__, str(exc)[:200])
+    except RecursionError:
+        return ("recursion", "RecursionError", "")
+    except Exception as exc:  # noqa: BLE001 - classified by the caller
+        return ("crash", type(exc).__name__, f"{statham_frame(exc)}: {str(exc)[:200]}")
+
+
+def _has_unaddressable(node):
+    """Members json_ref_dict cannot address or would resolve: the "" key, and literal "$ref" strings."""
+    if isinstance(node, dict):
+        return "" in node or isinstance(node.get("$ref"), str) or any(_has_unaddressable(v) for v in node.values())
+    return isinstance(node, list) and any(_has_unaddressable(v) for v in node)
+
+
+def safe_parse_labelled(schema):
+    """The DOCUMENTED loading pipeline on an in-memory document:
+    parse(materialize(RefDict.from_uri(uri), context_labeller=title_labeller()))[0].
+
+    -> ('ok', element) | ('skip', reason) | the error tuples of safe_parse.  'skip' = the dependency
+    (json_ref_dict) cannot carry this document; nothing is concluded about statham."""
+    from vlib import docs
+    from statham.schema.parser import parse
+
+    if not isinstance(schema, dict) or _has_unaddressable(schema):
+        return ("skip", "not-loadable-through-json_ref_dict")
+    try:
+        loaded = docs.materialized({"a.json": copy.deepcopy(schema)}, "a.json")
+    except RecursionError:
+        return ("skip", "recursion-in-loader")
+    except Exception as exc:  # noqa: BLE001 - the loader is not statham
+        return ("skip", "loader-error:" + type(exc).__name__)
+    try:
+        with warnings.catch_warnings():
+            warnings.simplefilter("ignore")
+            return ("ok", parse(loaded)[0])
     except SchemaParseError as exc:
         return ("parse-error", type(exc).__name__, str(exc)[:200])
     except RecursionError:
